@@ -44,7 +44,7 @@ def info_case(draw):
         if not revcomp:
             k = draw(st.integers(0, 4))
             if k == 1:
-                o["cut1"] = [-draw(st.integers(1, 4))]
+                o["cut1"] = [-draw(st.integers(0, 4))]  # -u 0 is accepted and removes nothing
             elif k == 2:
                 o["q1_arg"] = draw(st.sampled_from(["10", "20"]))
             elif k == 3:
